@@ -7,11 +7,14 @@ RULE = ("a real Node (virtual clock with millisecond positions inside the second
         "999 ms into the second) arrives through ingest_manifest, through receive_chunk with the genuine replica bytes, or "
         "through handle_announce (advertised TTL 0, 1, min - 1, min, the manifest's own, larger, huge). Read back: manifest "
         "cached?, and the deadlines of the key-share record, the replica, the node's own announcement of the replica, and "
-        "the announcer's contact. Oracle (independent of the model): a manifest that is expired or has less than min whole "
+        "the announcer's contact. A fourth path: an announce that assigns this node a shard, from a peer that cannot be reached "
+        "(retry back-off 1, 3, 30, 45, 120 s): a pending fetch is created, the clock moves to 1 ms before / exactly / 1 ms / "
+        "500 ms after the manifest's expiry, to around the end of the back-off, or anywhere, and the node ticks: read back "
+        "whether the fetch is still pending. Oracle (independent of the model): a manifest that is expired or has less than min whole "
         "seconds left creates nothing; otherwise every deadline created is no later than the manifest's expiry and no "
-        "later than now + max. non-trivial = an accepted manifest; distinct = distinct outputs")
+        "later than now + max, and no fetch is pending after a tick at or after the manifest's expiry. non-trivial = an accepted manifest; distinct = distinct outputs")
 ASSUMPTIONS = ["admission of announces (PoW, throttle, lock-out) is C21's: here difficulty 0 and a new sender per record",
-               "pending fetches created from announces are C24's (dropped at the manifest's expiry); the manifest cache itself is pruned by C05's tick",
+               "the scheduling of pending fetches (limits, back-off ladder, counters) is C24's; here only that a fetch does not survive a tick after its manifest's expiry; the manifest cache itself is pruned by C05's tick",
                "the replica matches the manifest (C11)"]
 TRUSTED = ["extraction: ExtrOcamlBasic only", "harness/impl_manifestttl.cpp (own NodeTestAccess friend, #define private public around "
            "KademliaTable.hpp), link-time replacement of the clocks"]
@@ -29,7 +32,17 @@ def generate(rng, tier):
             rem = rng.choice([-10, 0, 1, 2, mn - 1, mn, mn + 1, mx - 1, mx, mx + 1, 2 * mx, 172800, rng.randrange(-5, mx + 50)])
             frac = rng.choice([0, 0, 1, 500, 999])
             adv = rng.choice([0, 1, mn - 1, mn, max(1, rem - 1), rem, rem + 1, mx, mx + 1, 10 ** 6]) if path == 2 else 0
-            ints += [path, rem, frac, max(0, adv)]
+            aux = 0
+            if rng.random() < 0.3:
+                # an announce that assigns a shard: a pending fetch to an unreachable peer, retry back-off aux seconds; then the
+                # clock moves adv ms (around the manifest's expiry, around the end of the back-off) and the node ticks
+                path = 3
+                aux = rng.choice([1, 3, 30, 45, 120])
+                rem = rng.choice([rem, mn, mn + 1, mn + 2, rng.randrange(mn, mn + 40)])
+                left = rem * 1000 - frac
+                adv = rng.choice([0, left - 1, left, left + 1, left + 500, min(aux, 60) * 1000 - 1, min(aux, 60) * 1000, min(aux, 60) * 1000 + 1,
+                                  left + min(aux, 60) * 1000, rng.randrange(0, max(1, 2 * abs(left) + 2000))])
+            ints += [path, rem, frac, max(0, adv), aux]
         cases.append({"ints": ints, "tag": "records"})
     return cases
 
@@ -39,14 +52,29 @@ def judge(case, impl, model):
     if impl and impl[0] in (-2000, -1000):
         return {"fail": f"C03|abnormal|{impl[:2]}"}
     mn, mx = ints[0], ints[1]
-    recs = [tuple(ints[i:i + 4]) for i in range(2, len(ints), 4)]
+    recs = [tuple(ints[i:i + 5]) for i in range(2, len(ints), 5)]
     if len(impl) != 5 * len(recs):
         return {"fail": "C03|output-shape"}
     nontrivial = False
-    for i, (path, rem, frac, adv) in enumerate(recs):
+    for i, (path, rem, frac, adv, aux) in enumerate(recs):
         acc, shards, replica, own, contact = impl[5 * i:5 * i + 5]
         left_ms = rem * 1000 - frac            # until the manifest expires
-        name = ["ingest", "receive", "announce"][path]
+        name = ["ingest", "receive", "announce", "announce-with-assigned-shard"][path]
+        if path == 3:
+            pend0, pend1, wait = replica, own, contact
+            if left_ms <= 0 or left_ms // 1000 < mn:
+                if acc or shards != -1 or pend0 or pend1:
+                    return {"fail": f"C03|{name}-of-an-expired-or-too-short-lived-manifest-changed-state"}
+                continue
+            if shards > left_ms:
+                return {"fail": f"C03|key-share-record-outlives-the-manifest|{name}"}
+            if shards > mx * 1000:
+                return {"fail": f"C03|key-share-record-beyond-the-maximum-ttl|{name}"}
+            if pend1 and adv >= left_ms:
+                return {"fail": "C03|pending-fetch-outlives-the-manifest"}
+            if pend0:
+                nontrivial = True
+            continue
         dls = {"key-share-record": shards, "replica": replica, "own-announcement": own, "announcer-contact": contact}
         if left_ms <= 0 or left_ms // 1000 < mn:
             if acc or any(v != -1 for v in dls.values()):
